@@ -1,11 +1,13 @@
 #!/bin/sh
 # seedtest_all.sh <out.txt> Cxx [Cxx ...] — run each seeded patch of the given properties
-# (from /tmp/sw/out/Cxx/n/patch.diff) through tools/seedrun.sh and summarise.
+# (from /tmp/sw/out/Cxx/n/patch.diff; only the n matching the shell pattern $SEED_FILTER if set, e.g. "r5-*")
+# through tools/seedrun.sh and summarise.
 out="$1"; shift
 for p in "$@"; do
   for d in /tmp/sw/out/$p/*/; do
     n=$(basename "$d")
     [ -f "$d/patch.diff" ] || continue
+    case "$n" in ${SEED_FILTER:-*}) ;; *) continue ;; esac
     log=/tmp/vseed-log-$p-$n.txt
     /verif/tools/seedrun.sh "$d/patch.diff" $p > "$log" 2>&1
     rc=$?
